@@ -771,6 +771,8 @@ theorem xstep_core (y : Sys) (x : XOp) :
   | setGoal g => simp [xcore, xstep]
   | stopMode => simp [xcore, xstep]
   | startMode p => simp [xcore, xstep, startMode_obs]
+  | newGame => simp only [xcore, xstep]; split <;> simp
+  | ctlNone => simp [xcore, xstep]
 
 theorem xstep_nHit (y : Sys) (x : XOp) : nHit (xstep y x).2 = if acceptedX y x then 1 else 0 := by
   have h := xstep_core y x
@@ -936,6 +938,12 @@ theorem xledger_step (c0 : Cfg) (y : Sys) (xl : XLedger) (x : XOp) (inv : Ledger
   | setGoal g => exact ⟨inv.kind, inv.interval, inv.down, inv.roc, inv.start, inv.value⟩
   | stopMode => exact stopMode_inv c0 y xl inv
   | startMode p => exact startMode_inv c0 y xl p inv
+  | newGame =>
+    simp only [xstep, xledgerStep]
+    split
+    · exact inv
+    · exact ⟨inv.kind, inv.interval, inv.down, inv.roc, inv.start, inv.value⟩
+  | ctlNone => exact inv
 
 /-! ### delayed control calls, stored states, the window over the extended ops -/
 
@@ -1081,6 +1089,8 @@ theorem xstep_pending (y : Sys) (x : XOp) (h : PendingOk y) : PendingOk (xstep y
     simp only [xstep]; intro z hz
     have f := startMode_frame y p
     rw [f.1] at hz; rw [f.2.1]; exact h z hz
+  | newGame => simp only [xstep]; split <;> exact h
+  | ctlNone => exact h
 
 theorem xrun_pending (y : Sys) (ops : List XOp) (h : PendingOk y) : PendingOk (xrun y ops).1 := by
   induction ops generalizing y with
@@ -1121,6 +1131,8 @@ theorem xstep_window (y : Sys) (x : XOp) (h : WindowOk y.c y.s) : WindowOk (xste
       · have := step_window y.c y.s .load h
         rename_i hl _ _; simp only [Bool.not_eq_true] at hl
         rw [step_unloaded _ _ _ hl] at this; exact this
+    | newGame => simp only [xstep]; split <;> exact h
+    | ctlNone => exact h
 
 theorem xrun_window (y : Sys) (ops : List XOp) (h : WindowOk y.c y.s) : WindowOk (xrun y ops).1.c (xrun y ops).1.s := by
   induction ops generalizing y with
